@@ -54,16 +54,28 @@ theorem forall₂_mem_right {α β} {R : α → β → Prop} {l : List α} {r : 
     · obtain ⟨a, ha, h'⟩ := ih hb'
       exact ⟨a, List.mem_cons_of_mem _ ha, h'⟩
 
+theorem forall₂_mem_left {α β} {R : α → β → Prop} {l : List α} {r : List β}
+    (h : List.Forall₂ R l r) {a : α} (ha : a ∈ l) : ∃ b ∈ r, R a b := by
+  induction h with
+  | nil => cases ha
+  | cons hab _ ih =>
+    rcases List.mem_cons.1 ha with rfl | ha'
+    · exact ⟨_, List.mem_cons_self, hab⟩
+    · obtain ⟨b, hb, h'⟩ := ih ha'
+      exact ⟨b, List.mem_cons_of_mem _ hb, h'⟩
+
 /-! ## inversion of `objectOf` and `sampleToFrame` -/
 
 theorem objectOf_ok {T : Tables} {cfg : Config} {time : Nat} {ego : EgoPose} {cs : CalibratedSensor}
     {a : Annotation} {o : Obj} (h : objectOf T cfg time ego cs a = .ok o) :
-    ∃ pose vis attrs name tracked,
+    ∃ pose vis attrs name vel tracked,
       boxPose cfg.frame ego cs a = .ok pose ∧ visibilityOf T a = .ok vis ∧
-      attributeNamesOf T a = .ok attrs ∧ categoryNameOf T a = .ok name ∧ trackedOf T cfg a = .ok tracked ∧
+      attributeNamesOf T a = .ok attrs ∧ categoryNameOf T a = .ok name ∧
+      fpCheck cfg (convertLabel cfg.merge name) = .ok () ∧
+      velocityOf T true a = .ok vel ∧ trackedOf T cfg a = .ok tracked ∧
       o = { uuid := a.instanceToken, label := convertLabel cfg.merge name, name := name, attributes := attrs,
             size := a.size, points := a.numLidarPts, visibility := vis, frame := cfg.frame, time := time,
-            pose := pose, tracked := tracked } := by
+            pose := pose, velocity := vel, tracked := tracked } := by
   unfold objectOf at h
   simp only [bind, Except.bind, pure, Except.pure] at h
   split at h
@@ -80,16 +92,23 @@ theorem objectOf_ok {T : Tables} {cfg : Config} {time : Nat} {ego : EgoPose} {cs
         · rename_i name hname
           split at h
           · cases h
-          · rename_i tracked htracked
-            cases h
-            exact ⟨pose, vis, attrs, name, tracked, hpose, hvis, hattrs, hname, htracked, rfl⟩
+          · rename_i u hfp
+            split at h
+            · cases h
+            · rename_i vel hvel
+              split at h
+              · cases h
+              · rename_i tracked htracked
+                cases h
+                exact ⟨pose, vis, attrs, name, vel, tracked, hpose, hvis, hattrs, hname, hfp, hvel, htracked, rfl⟩
 
 theorem sampleToFrame_ok {T : Tables} {cfg : Config} {n : Nat} {s : Sample} {f : Frame}
     (h : sampleToFrame T cfg n s = .ok f) :
-    ∃ sd ego cs objs,
+    ∃ sd ego cs objs frs,
       lidarOf T s.token = .ok sd ∧ (cfg.frame = "BASE_LINK" ∨ cfg.frame = "MAP") ∧
       lookup EgoPose.token T.egoPoses sd.egoPoseToken = .ok ego ∧
       lookup CalibratedSensor.token T.calibratedSensors sd.calibratedSensorToken = .ok cs ∧
+      sensorFrames T = .ok frs ∧
       mapE (objectOf T cfg s.timestamp ego cs) (annsOf T s.token) = .ok objs ∧
       f = { unixTime := s.timestamp, frameName := toString n, objects := objs,
             ego2map := ⟨ego.translation, ego.rotation⟩ } := by
@@ -108,9 +127,12 @@ theorem sampleToFrame_ok {T : Tables} {cfg : Config} {n : Nat} {s : Sample} {f :
         · rename_i cs hcs
           split at h
           · cases h
-          · rename_i objs hobjs
-            cases h
-            exact ⟨sd, ego, cs, objs, hsd, hfr, hego, hcs, hobjs, rfl⟩
+          · rename_i frs hfrs
+            split at h
+            · cases h
+            · rename_i objs hobjs
+              cases h
+              exact ⟨sd, ego, cs, objs, frs, hsd, hfr, hego, hcs, hfrs, hobjs, rfl⟩
     · cases h
 
 /-- the objects of a loaded frame, one per annotation of the sample, each the loop body's result -/
@@ -122,8 +144,31 @@ theorem sampleToFrame_objects {T : Tables} {cfg : Config} {n : Nat} {s : Sample}
       lookup CalibratedSensor.token T.calibratedSensors sd.calibratedSensorToken = .ok cs ∧
       f.ego2map = ⟨ego.translation, ego.rotation⟩ ∧ f.unixTime = s.timestamp ∧ f.frameName = toString n ∧
       List.Forall₂ (fun a o => objectOf T cfg s.timestamp ego cs a = .ok o) (annsOf T s.token) f.objects := by
-  obtain ⟨sd, ego, cs, objs, hsd, _, hego, hcs, hobjs, rfl⟩ := sampleToFrame_ok h
+  obtain ⟨sd, ego, cs, objs, _, hsd, _, hego, hcs, _, hobjs, rfl⟩ := sampleToFrame_ok h
   exact ⟨sd, ego, cs, hsd, hego, hcs, rfl, rfl, rfl, mapE_forall₂ hobjs⟩
+
+/-- inversion of `sensorFrames`: every channel converts, and the traffic-light rotations do not cancel -/
+theorem sensorFrames_ok {T : Tables} {frs : List String} (h : sensorFrames T = .ok frs) :
+    mapE (fun cs =>
+      match lookup Sensor.token T.sensors cs.sensorToken with
+      | .error e => .error e
+      | .ok s => Enums.frameFromValue s.channel) T.calibratedSensors = .ok frs ∧
+    ((tlrRotations T frs) = [] ∨ (tlrRotations T frs).foldl Quat.add Quat.zero ≠ Quat.zero) := by
+  unfold sensorFrames at h
+  split at h
+  · cases h
+  · rename_i frames hm
+    split at h
+    · cases h
+    · rename_i hc
+      cases h
+      refine ⟨hm, ?_⟩
+      by_cases he : tlrRotations T frs = []
+      · exact Or.inl he
+      · right
+        intro hz
+        apply hc
+        simp [hz, he]
 
 /-! ## `loadFrom` -/
 
@@ -203,17 +248,17 @@ theorem lookup_ok_mem {α} {tok : α → String} {tbl : List α} {t : String} {r
   split at h
   · rename_i r' hf
     cases h
-    exact ⟨List.mem_of_find?_eq_some hf, by simpa using List.find?_some hf⟩
+    exact ⟨by simpa using List.mem_of_find?_eq_some hf, by simpa using List.find?_some hf⟩
   · cases h
 
 theorem lookup_ok_of_mem {α} {tok : α → String} {tbl : List α} {t : String}
     (h : ∃ r ∈ tbl, tok r = t) : ∃ r, lookup tok tbl t = .ok r := by
   unfold lookup
-  cases hf : tbl.find? (fun r => tok r == t) with
+  cases hf : tbl.reverse.find? (fun r => tok r == t) with
   | some r => exact ⟨r, rfl⟩
   | none =>
     obtain ⟨r, hr, ht⟩ := h
-    have := List.find?_eq_none.1 hf r hr
+    have := List.find?_eq_none.1 hf r (by simpa using hr)
     simp [ht] at this
 
 theorem lookup_error {α} {tok : α → String} {tbl : List α} {t : String} {e : Err}
@@ -223,12 +268,19 @@ theorem lookup_error {α} {tok : α → String} {tbl : List α} {t : String} {e 
   · cases h
   · cases h; rfl
 
+/-- in a table whose tokens are unique, `lookup` finds THE record carrying the token -/
+theorem lookup_of_unique {α} {tok : α → String} {tbl : List α} {r : α} (hr : r ∈ tbl)
+    (huniq : ∀ x ∈ tbl, tok x = tok r → x = r) : lookup tok tbl (tok r) = .ok r := by
+  obtain ⟨x, hx⟩ := lookup_ok_of_mem (tok := tok) (tbl := tbl) (t := tok r) ⟨r, hr, rfl⟩
+  obtain ⟨hm, ht⟩ := lookup_ok_mem hx
+  rw [hx, huniq x hm ht]
+
 /-! ## label table -/
 
 theorem convertLabel_cases (merge : Bool) (name : String) :
     (∃ p ∈ pairTable merge, name.toLower = p.2 ∧ convertLabel merge name = p.1) ∨
     (name.toLower ∉ (pairTable merge).map (·.2) ∧ convertLabel merge name = "UNKNOWN") := by
-  unfold convertLabel
+  unfold convertLabel convertWith
   cases hf : (pairTable merge).find? (fun p => name.toLower == p.2) with
   | some p =>
     left
